@@ -94,6 +94,25 @@ CHECKS = {
     text="Search, not proof: 20k/1.5M generated SCTE-35 signals (every command and descriptor class the library models, field values over their full bit widths) and 0.7k/30k event-delivery sessions (vod: all segments; live: up to 40 consecutive segments ending at the newest edge, crossing loop boundaries) per tier.",
     note=SHIMS + ". vt/scte.py is self-tested against the binary examples of tests/test_scte35.py and the SCTE 35 sample section. Event indices beyond 32 bits are outside the domain (emsg id and splice_event_id are 32-bit fields).",
     design_ref="DESIGN.md section 4, C14"),
+ "C15": dict(
+    engine="enumeration + hypothesis (token sequences)",
+    technique="exhaustive (operation x role x authentication) matrix and route sweep against a reference authorisation table written from the property statement, state compared through raw SQL snapshots; model-based CSRF token sequences (issue / use / reuse / cross-service / cross-session / tamper / expire under the harness clock)",
+    text="Search over a finite domain plus generated sequences: every one of 30 management operations x 4 roles x cookie/JWT/none and every routable rule x role is enumerated in both tiers; 1.6k/60k generated CSRF token sequences per tier.",
+    note=SHIMS + ". flask_login is a stand-in (vt/shims): session-cookie authentication is the stand-in's, the permission decorators and CSRF code are the repository's.",
+    design_ref="DESIGN.md section 4, C15"),
+ "C16": dict(
+    engine="hypothesis",
+    technique="generated requests over every rule of app.url_map (discovered at run time) x query strings from every registered option name with type-confused, boundary and hostile values x streams with missing pieces; oracle: status < 500 unless the request asked for it, no exception reaches Flask, wall-clock watchdog only marks a case inconclusive; error-injection sequences against a reference counter model",
+    text="Search, not proof: 40k/3M generated requests and 1.2k/80k injection sessions per tier; anonymous and plain-user roles so that stored state stays constant.",
+    note=SHIMS + ". The corrupt-MP4 half of the property is exercised by the mp4_bytes engine (mutated fixture and synthetic files through Mp4Atom.load and the index path) when listed in evidence; see DESIGN.md for its limits.",
+    design_ref="DESIGN.md section 4, C16"),
+ "C17": dict(
+    engine="hypothesis (stateful histories)",
+    technique="model-based histories of management API calls (explicit step lists, shrinkable) against a reference object graph; after every step the database is read through raw SQL (referential integrity, ownership of every removed row, uniqueness) and every listed stream / multi-period stream is probed over HTTP (200 or clean 4xx; uploaded+indexed files byte-exact)",
+    text="Search, not proof: 640/40k histories per tier of up to 25/60 steps over streams, media files (fixture and synthetic uploads), keys and multi-period streams, with references to existing, deleted and never-existing objects.",
+    note=SHIMS + ". Database snapshot/restore per case through the sqlite backup API.",
+    design_ref="DESIGN.md section 4, C17"),
+
 }
 
 _PENDING = "check under construction in this build round; not yet registered (see DESIGN.md section 9)"
